@@ -585,8 +585,13 @@ class PDA:
             if state == self._start_state:
                 add_start_state_to_graph(graph, state)
         if self._start_stack_symbol is not None:
-            graph.add_node("INITIAL_STACK_HIDDEN",
+            hidden = "INITIAL_STACK_HIDDEN"
+            while hidden in graph.nodes:
+                # A state can have this name
+                hidden += "'"
+            graph.add_node(hidden,
                            label=json.dumps(self._start_stack_symbol.value),
+                           is_initial_stack_symbol=True,
                            shape=None,
                            height=.0,
                            width=.0)
@@ -647,9 +652,14 @@ class PDA:
                 pda.set_start_state(node)
             if graph.nodes[node].get("is_final", False):
                 pda.add_final_state(node)
-        if "INITIAL_STACK_HIDDEN" in graph.nodes:
-            pda.set_start_stack_symbol(
-                json.loads(graph.nodes["INITIAL_STACK_HIDDEN"]["label"]))
+        for node in graph.nodes:
+            data = graph.nodes[node]
+            # Marked by to_networkx; without the mark, known by its name
+            # as long as it is not a state
+            if data.get("is_initial_stack_symbol",
+                        node == "INITIAL_STACK_HIDDEN" and
+                        "is_start" not in data):
+                pda.set_start_stack_symbol(json.loads(data["label"]))
         return pda
 
     def write_as_dot(self, filename):
